@@ -72,3 +72,53 @@ def run_program(prog, env, mode="np", dtype=np.longdouble):
     for name, tree in prog:
         e[name] = expr_eval.evaluate(tree, e, mode)
     return e
+
+
+def run_program_scalar(prog, env, mode="fraction"):
+    """Scalar run of a straight-line program in exact Fractions ("fraction") or 50-digit mpmath ("mp").
+
+    Same arithmetic, node for node, as ``run_program(prog, env, mode)`` (which goes through
+    ``expr_eval.evaluate`` for every step), but the environment is converted once and no magnitudes
+    are tracked - about ten times faster on programs with hundreds of steps.  (Added for C06.)"""
+    from fractions import Fraction
+    if mode == "fraction":
+        conv = lambda v: v if isinstance(v, Fraction) else Fraction(v)  # noqa: E731
+        num = lambda n, d: Fraction(int(n), int(d))  # noqa: E731
+        un = {"abs": abs}
+    elif mode == "mp":
+        mp = expr_eval.mp
+        conv = lambda v: expr_eval._conv(v, "mp")  # noqa: E731
+        num = lambda n, d: mp.mpf(int(n)) / mp.mpf(int(d))  # noqa: E731
+        un = expr_eval._UN_MP()
+    else:
+        raise ValueError(mode)
+    e = {k: conv(v) for k, v in env.items()}
+
+    def ev(t):
+        op = t["op"]
+        if op == "c":
+            return num(t["n"], t["d"])
+        if op == "v":
+            return e[t["name"]]
+        if op == "neg":
+            return -ev(t["a"])
+        if op == "add":
+            return ev(t["a"]) + ev(t["b"])
+        if op == "sub":
+            return ev(t["a"]) - ev(t["b"])
+        if op == "mul":
+            return ev(t["a"]) * ev(t["b"])
+        if op == "div":
+            return ev(t["a"]) / ev(t["b"])
+        if op == "powi":
+            a, k = ev(t["a"]), int(t["k"])
+            if mode == "fraction":
+                return Fraction(1) / a ** (-k) if k < 0 else a ** k
+            return a ** k
+        if op in un:
+            return un[op](ev(t["a"]))
+        raise ValueError(f"node {op!r} not supported by run_program_scalar in mode {mode}")
+
+    for name, tree in prog:
+        e[name] = ev(tree)
+    return e
